@@ -56,12 +56,13 @@ class _SQLLineageConfigLoader:
         for key in kwargs:
             if key not in self.config.keys():
                 raise ConfigException(f"Invalid config key: {key}")
+        parsed = {
+            key: self.parse_value(value, self.config[key][0])
+            for key, value in kwargs.items()
+        }
         if self.get_ident() not in self._thread_config.keys():
             self._thread_config[self.get_ident()] = {}
-        for key, value in kwargs.items():
-            self._thread_config[self.get_ident()][key] = self.parse_value(
-                value, self.config[key][0]
-            )
+        self._thread_config[self.get_ident()].update(parsed)
         return self
 
     def __enter__(self):
